@@ -68,6 +68,7 @@ type Spec[C any] struct {
 	Journal  bool              // write the case to the journal before running it (engines with background goroutines)
 	Enum     func(func(C) bool) // optional exhaustive enumeration, run before the random part; yield returns false to stop
 	EnumOnlyShard0 bool        // enumeration is only done by shard 0 in sharded runs
+	EnumSharded bool           // the enumeration is divided among the shards (case i goes to shard i mod n); together they are exhaustive
 	Rule     string            // non-triviality rule in words
 	NoRecover bool             // do not recover panics in Run (engine handles them itself)
 	ShrinkSeconds int          // time limit for rapid's shrinking (default 20 s; lower for engines with slow cases)
@@ -555,16 +556,20 @@ func Run[C any](t *testing.T, s Spec[C]) {
 	if s.Enum != nil && (!s.EnumOnlyShard0 || Shard == 0) {
 		var bad *Finding
 		var badCase C
-		n := int64(0)
+		n, done := int64(0), int64(0)
 		s.Enum(func(c C) bool {
 			n++
+			if s.EnumSharded && NShards > 1 && int((n-1)%int64(NShards)) != Shard {
+				return true
+			}
+			done++
 			if f := exec(c); f != nil {
 				bad, badCase = f, c
 				return false
 			}
 			return true
 		})
-		st.EnumSize = n
+		st.EnumSize = done
 		if bad != nil {
 			report(badCase, bad)
 			return
